@@ -74,14 +74,37 @@ type c12Ctx struct {
 	dec     *rlwe.Decryptor
 	becd    *bgv.Encoder
 	cecd    *ckks.Encoder
-	cache   map[uint64]*rlwe.GaloisKey
+	cache   map[c12KeyID]*rlwe.GaloisKey
 	maxErr  float64
 }
 
 func newC12Ctx(scheme string, logN int) *c12Ctx {
-	x := &c12Ctx{scheme: scheme, logN: logN, cache: map[uint64]*rlwe.GaloisKey{}}
+	return newC12CtxQP(scheme, logN, []int{54, 45, 45, 45}, []int{56})
+}
+
+// newC12CtxQP: bgv context with an explicit modulus chain (used for several auxiliary primes and for
+// 60/61-bit primes, where the lazy-accumulation margins floor(2^64/q) are smallest).
+func newC12CtxQP(scheme string, logN int, logQ, logP []int) *c12Ctx {
+	x := &c12Ctx{scheme: scheme, logN: logN, cache: map[c12KeyID]*rlwe.GaloisKey{}}
 	if scheme == "bgv" {
-		p, err := bgv.NewParametersFromLiteral(bgv.ParametersLiteral{LogN: logN, LogQ: []int{54, 45, 45, 45}, LogP: []int{56}, PlaintextModulus: 65537})
+		lit := bgv.ParametersLiteral{LogN: logN, LogQ: logQ, LogP: logP, PlaintextModulus: 65537}
+		for _, b := range logQ {
+			if b > 60 {
+				// LogQ only generates primes up to 60 bits: give the ciphertext primes explicitly
+				// (2^b - e, i.e. just below 2^b: the smallest margins floor(2^64/q) for that size)
+				// P explicitly as well: with Q explicit and P by size the library picks P = Q[0]
+				// (NewParametersFromLiteral accepts the resulting non-coprime Q and P).
+				g := ring.NewNTTFriendlyPrimesGenerator(uint64(b), uint64(2<<logN))
+				qs, err := g.NextDownstreamPrimes(len(logQ) + len(logP))
+				if err != nil {
+					panic(err)
+				}
+				lit.LogQ, lit.Q = nil, qs[len(logP):]
+				lit.LogP, lit.P = nil, qs[:len(logP)]
+				break
+			}
+		}
+		p, err := bgv.NewParametersFromLiteral(lit)
 		if err != nil {
 			panic(err)
 		}
@@ -125,13 +148,20 @@ func (x *c12Ctx) schemeEval(evk rlwe.EvaluationKeySet) schemes.Evaluator {
 	return ckks.NewEvaluator(x.cp, evk)
 }
 
-func (x *c12Ctx) keysFor(galEls []uint64) (*c12LogKeys, *[]uint64, *[]uint64) {
+type c12KeyID struct {
+	g  uint64
+	lp int
+}
+
+// keysFor: Galois keys for exactly galEls, generated at auxiliary level levelP.
+func (x *c12Ctx) keysFor(galEls []uint64, levelP int) (*c12LogKeys, *[]uint64, *[]uint64) {
 	gks := make([]*rlwe.GaloisKey, 0, len(galEls))
 	for _, g := range galEls {
-		k, ok := x.cache[g]
+		k, ok := x.cache[c12KeyID{g, levelP}]
 		if !ok {
-			k = x.kgen.GenGaloisKeyNew(g, x.sk)
-			x.cache[g] = k
+			lp := levelP
+			k = x.kgen.GenGaloisKeyNew(g, x.sk, rlwe.EvaluationKeyParameters{LevelP: &lp})
+			x.cache[c12KeyID{g, levelP}] = k
 		}
 		gks = append(gks, k)
 	}
@@ -216,6 +246,7 @@ func (x *c12Ctx) scaleStr(s rlwe.Scale) string {
 // ---------- one linear transformation of a test case ----------
 
 type c12LT struct {
+	levelP  int // LevelP of the transformation = of the Galois keys (all transformations of a case share it)
 	ratio   int
 	level   int
 	scale   uint64
@@ -270,7 +301,7 @@ func (x *c12Ctx) build(lt *c12LT) (b c12Built) {
 		for k, d := range lt.idx {
 			dg[d] = lt.diag[k]
 		}
-		p := bgvlt.Parameters{DiagonalsIndexList: dg.DiagonalsIndexList(), LevelQ: lt.level, LevelP: x.rp.MaxLevelP(),
+		p := bgvlt.Parameters{DiagonalsIndexList: dg.DiagonalsIndexList(), LevelQ: lt.level, LevelP: lt.levelP,
 			Scale: x.newScale(lt.scale), LogDimensions: x.dims(lt.logCols), LogBabyStepGiantStepRatio: lt.ratio}
 		l := bgvlt.NewLinearTransformation(x.bp, p)
 		if err := bgvlt.Encode(x.becd, dg, l); err != nil {
@@ -288,7 +319,7 @@ func (x *c12Ctx) build(lt *c12LT) (b c12Built) {
 		}
 		dg[d] = f
 	}
-	p := ckkslt.Parameters{DiagonalsIndexList: dg.DiagonalsIndexList(), LevelQ: lt.level, LevelP: x.rp.MaxLevelP(),
+	p := ckkslt.Parameters{DiagonalsIndexList: dg.DiagonalsIndexList(), LevelQ: lt.level, LevelP: lt.levelP,
 		Scale: x.newScale(lt.scale), LogDimensions: x.dims(lt.logCols), LogBabyStepGiantStepRatio: lt.ratio}
 	l := ckkslt.NewTransformation(x.cp, p)
 	if err := ckkslt.Encode(x.cecd, dg, l); err != nil {
@@ -368,7 +399,7 @@ func (x *c12Ctx) describe(cs *c12Case) string {
 	}
 	fmt.Fprintf(&sb, " v=%s", c12I64(cs.v))
 	for _, lt := range cs.lts {
-		fmt.Fprintf(&sb, " LT ratio=%d lvl=%d scale=%d", lt.ratio, lt.level, lt.scale)
+		fmt.Fprintf(&sb, " LT ratio=%d lvl=%d scale=%d levelp=%d", lt.ratio, lt.level, lt.scale, lt.levelP)
 		for k, d := range lt.idx {
 			fmt.Fprintf(&sb, " D %d %s", d, c12I64(lt.diag[k]))
 		}
@@ -412,7 +443,7 @@ func (x *c12Ctx) runCase(c *Ctx, cs *c12Case) {
 		c.Count("eval:encode-err")
 		return
 	}
-	keys, reqs, missing := x.keysFor(adv)
+	keys, reqs, missing := x.keysFor(adv, cs.lts[0].levelP)
 	ev := x.schemeEval(keys)
 	ct := x.encrypt(cs.v, cs.ctLevel, cs.ctScale, cs.logCols)
 	commons := make([]clt.LinearTransformation, len(cs.lts))
@@ -583,7 +614,7 @@ func utilsMin(a, b int) int {
 
 func (x *c12Ctx) randLT(c *Ctx, logCols, kind, ratio, level int) *c12LT {
 	cols := 1 << logCols
-	lt := &c12LT{ratio: ratio, level: level, logCols: logCols}
+	lt := &c12LT{ratio: ratio, level: level, logCols: logCols, levelP: x.rp.MaxLevelP()}
 	lt.idx = x.randDiagSet(c, logCols, kind)
 	if x.scheme == "bgv" {
 		lt.scale = 1 + c.rng.Below(x.t-1)
@@ -637,6 +668,96 @@ func genC12(c *Ctx) {
 		for _, logN := range logNs {
 			x := newC12Ctx(scheme, logN)
 			c12Evals(c, x)
+		}
+	}
+	c12LevelP(c)
+	c12BigPrimes(c)
+}
+
+// c12LevelP: several auxiliary primes, transformations and Galois keys at every LevelP in 0..max
+// (the un-rotated part of the BSGS/naive evaluation is multiplied by the product of the first
+// LevelP+1 auxiliary primes only).
+func c12LevelP(c *Ctx) {
+	logPs := [][]int{{56, 56, 56}}
+	if c.Thorough() {
+		logPs = [][]int{{56, 56}, {56, 56, 56}}
+	}
+	for _, logP := range logPs {
+		x := newC12CtxQP("bgv", 5, []int{54, 45, 45, 45}, logP)
+		L := x.maxLevel()
+		for lp := 0; lp <= x.rp.MaxLevelP(); lp++ {
+			for _, ratio := range []int{-1, 0, 1, 2} {
+				kinds := []int{2, 3 + 2*c.rng.Intn(2)}
+				if c.Thorough() {
+					kinds = []int{1, 2, 3, 4, 5}
+				}
+				for _, kind := range kinds {
+					lvl := 1 + c.rng.Intn(L)
+					cs := &c12Case{ctLevel: 1 + c.rng.Intn(L), ctScale: x.ctScale(c), logCols: x.logMaxC, v: x.randVec(c, x.logMaxC), mode: "new", outLvl: lvl}
+					lt := x.randLT(c, x.logMaxC, kind, ratio, lvl)
+					lt.levelP = lp
+					cs.lts = []*c12LT{lt}
+					c.Count(fmt.Sprintf("levelP:%d/%d", lp, x.rp.MaxLevelP()))
+					x.runCase(c, cs)
+				}
+			}
+			// many and sequential at this LevelP
+			for _, mode := range []string{"many", "seq"} {
+				cs := &c12Case{ctLevel: L, ctScale: x.ctScale(c), logCols: x.logMaxC, v: x.randVec(c, x.logMaxC), mode: mode}
+				for i := 0; i < 2; i++ {
+					lvl := L
+					if mode == "many" {
+						lvl = 1 + c.rng.Intn(L)
+					}
+					lt := x.randLT(c, x.logMaxC, 2+c.rng.Intn(4), []int{-1, 0, 1, 2}[c.rng.Intn(4)], lvl)
+					lt.levelP = lp
+					cs.lts = append(cs.lts, lt)
+				}
+				cs.outLvl = cs.lts[0].level
+				c.Count(fmt.Sprintf("levelP:%d/%d", lp, x.rp.MaxLevelP()))
+				x.runCase(c, cs)
+			}
+		}
+	}
+}
+
+// c12BigPrimes: 60/61-bit primes in Q and P, where the lazy-accumulation margins floor(2^64/q)
+// (halved in the BSGS algorithm) are 16/8 resp. 8/4, and dense matrices with at least
+// 2*floor(2^64/q) baby steps per giant step (256 consecutive diagonals, ratio 3 -> N1 = 32), plus
+// the naive algorithm with many diagonals.
+func c12BigPrimes(c *Ctx) {
+	chains := [][2][]int{{{60, 60}, {61}}}
+	if c.Thorough() {
+		chains = [][2][]int{{{60, 60}, {61}}, {{61, 61}, {61}}, {{60, 45}, {61, 61}}}
+	}
+	for _, ch := range chains {
+		x := newC12CtxQP("bgv", 9, ch[0], ch[1])
+		L := x.maxLevel()
+		cols := 1 << x.logMaxC
+		type spec struct{ ratio, ndiag int }
+		specs := []spec{{3, cols}, {-1, 64}}
+		if c.Thorough() {
+			specs = []spec{{3, cols}, {2, cols}, {4, cols}, {-1, 64}, {-1, cols}, {3, 200}}
+		}
+		for _, sp := range specs {
+			lt := &c12LT{ratio: sp.ratio, level: L, logCols: x.logMaxC, levelP: x.rp.MaxLevelP(), scale: 1 + c.rng.Below(x.t-1)}
+			start := c.rng.Intn(cols)
+			for k := 0; k < sp.ndiag; k++ {
+				d := (start + k) % cols
+				if d != 0 && c.rng.Intn(2) == 0 {
+					d -= cols
+				}
+				lt.idx = append(lt.idx, d)
+				dv := make([]int64, x.rows*cols)
+				for i := range dv {
+					dv[i] = int64(c.rng.Below(x.t))
+				}
+				lt.diag = append(lt.diag, dv)
+			}
+			cs := &c12Case{ctLevel: L, ctScale: x.ctScale(c), logCols: x.logMaxC, v: x.randVec(c, x.logMaxC), mode: "new", outLvl: L}
+			cs.lts = []*c12LT{lt}
+			c.Count(fmt.Sprintf("bigprime:Q%v:ratio%d:diags%d", ch[0], sp.ratio, sp.ndiag))
+			x.runCase(c, cs)
 		}
 	}
 }
